@@ -349,6 +349,14 @@ def observe_all(ex: Exec, sim, values, chest=None, it=None):
             key = "%s@%s,%s" % (e["name"], e["position"]["x"] - w / 2.0, e["position"]["y"] - h / 2.0)
             ents[key] = list(sim.circuit_condition(e["entity_number"]))
     obs["ent"] = ents
+    places = []
+    for e in ex.view.user:
+        w, h = protos.tile_size(e["name"])
+        d = e.get("direction", 0) or 0
+        if d in (4, 12):
+            w, h = h, w
+        places.append("%s@%s,%s" % (e["name"], e["position"]["x"] - w / 2.0, e["position"]["y"] - h / 2.0))
+    obs["places"] = sorted(places)
     return obs
 
 
@@ -391,6 +399,11 @@ def diff_observations(a, b, names=None, rename=None):
     for key in b.get("ent", {}):
         if key not in a.get("ent", {}):
             out.append({"entity": key, "what": "entity missing in first build"})
+    if "places" in a and "places" in b and a["places"] != b["places"]:
+        sa, sb = list(a["places"]), list(b["places"])
+        only_a = [x for x in sa if x not in sb or sa.count(x) > sb.count(x)]
+        only_b = [x for x in sb if x not in sa or sb.count(x) > sa.count(x)]
+        out.append({"what": "user-placed entities differ", "only_a": only_a[:6], "only_b": only_b[:6]})
     return out
 
 
@@ -399,6 +412,7 @@ def common_observed(a, b):
     for kind in ("out", "const"):
         n += len(set(a[kind]) & (set(b["out"]) | set(b["const"])))
     n += len(set(a.get("ent", {})) & set(b.get("ent", {})))
+    n += len(set(a.get("places", [])) & set(b.get("places", [])))
     return n
 
 
